@@ -172,7 +172,7 @@ def property_checks(inp):
                 if c_eq is not None:
                     A(("OG cost no worse than the equal split", float((c_ret - c_eq) / max(c_eq, 1e-300)), 1e-9))
             st0 = numpy.random.get_state()[1][:5].tolist()
-        if inp["gctm"] and min(counts) > 0 and nb == L:
+        if inp["gctm"] and min(counts) > 0 and min(strengths) > 0.0 and nb == L:        # (GCTM starts from the slab method: the listed empty-slab finding would come with it)
             hm, cm = pc.GCTM(h, p, L)
             A(("GCTM returns L layers with non-negative strengths", 0.0 if (len(hm) == L and len(cm) == L and (cm >= 0).all() and (hm >= 0).all()) else 1.0, 0.0))
             hs, ps = h / 10000., p / 100e-15
